@@ -75,7 +75,17 @@ func vstrd(v ssa.Value, d int, seen map[ssa.Value]bool) string {
 		}
 		return v.Op.String() + vstrd(v.X, d+1, seen)
 	case *ssa.BinOp:
-		return "(" + vstrd(v.X, d+1, seen) + " " + v.Op.String() + " " + vstrd(v.Y, d+1, seen) + ")"
+		x, y, op := vstrd(v.X, d+1, seen), vstrd(v.Y, d+1, seen), v.Op
+		if m, isCmp := mirrorOp[op]; isCmp {
+			// comparisons are rendered with a canonical operand order (constants right, otherwise sorted), so
+			// `a == b` and `b == a`, `0 < n` and `n > 0` print the same (as normCond does at the top level)
+			_, xc := v.X.(*ssa.Const)
+			_, yc := v.Y.(*ssa.Const)
+			if (xc && !yc) || (xc == yc && x > y) {
+				x, y, op = y, x, m
+			}
+		}
+		return "(" + x + " " + op.String() + " " + y + ")"
 	case *ssa.FieldAddr:
 		return vstrd(v.X, d+1, seen) + "." + fieldName(v.X.Type(), v.Field)
 	case *ssa.Field:
